@@ -196,4 +196,34 @@ theorem pinned_tree_leak :
 example : (exec false (fun t => 100 + t) (Chunked.init [.openT, .abort, .openT, .last]) [0, 0, 0, 1, 1, 2, 2, 0, 0]).replies =
     [(1, 101)] := by decide
 
+/-! ### several listeners, a listener whose `Close` fails -/
+open SmtpV.Lifecycle in
+theorem endings2_closed (es : List Ending) (lerr : Bool) (n : Nat) :
+    (endings2 es true lerr n).2 = n ∧ ∀ r ∈ (endings2 es true lerr n).1, r = "closed" ∨ r = "-" := by
+  induction es with
+  | nil => simp [endings2]
+  | cons e t ih =>
+    cases e <;> simp only [endings2, if_true] <;> refine ⟨ih.1, ?_⟩ <;> intro r hr <;>
+      rcases List.mem_cons.mp hr with rfl | hr
+    · exact Or.inl rfl
+    · exact ih.2 r hr
+    · exact Or.inl rfl
+    · exact ih.2 r hr
+    · exact Or.inr rfl
+    · exact ih.2 r hr
+
+open SmtpV.Lifecycle in
+/-- **C20_close_ends_everything.**  `Close` on a server with any number of listeners and idle connections, whether or not a
+    listener's own `Close` reports an error: no connection is left open, the error is reported, and every later
+    `Close`/`Shutdown` reports that the server is closed. -/
+theorem C20_close_ends_everything (nA nB : Nat) (errA errB : Bool) (rest : List Ending) :
+    (run2 nA nB errA errB (.close :: rest)).opened = 0 ∧
+    (run2 nA nB errA errB (.close :: rest)).ends.head? = some (if errA || errB then "listenerr" else "nil") ∧
+    (∀ r ∈ (run2 nA nB errA errB (.close :: rest)).ends.tail, r = "closed" ∨ r = "-") ∧
+    (run2 nA nB errA errB (.close :: rest)).serveA = "nil" ∧ (run2 nA nB errA errB (.close :: rest)).serveB = "nil" := by
+  have h := endings2_closed rest (errA || errB) 0
+  simp only [run2, endings2, Bool.false_eq_true, if_false]
+  refine ⟨h.1, by simp, ?_, by simp, by simp⟩
+  simpa using h.2
+
 end SmtpV.Props.C20
